@@ -413,7 +413,7 @@ static void exec_x(const void *k, res_t *r, int prop, const runcfg_t *cfg) {
             !((c->fn == XF_ASCTIME || c->fn == XF_CTIME) && O.code == 1 /* documented -1: the libc conversion failed, no constraint was violated */)) { RES_VIOL(r, "C05:%s:failure-without-handler:%s", fn, x_class(c)); RES_DETAIL(r, "returned code %ld but no handler ran", O.code); return; }
         if (O.h_count == 1 && !O.failed) { RES_VIOL(r, "C05:%s:handler-but-success:%s", fn, x_class(c)); RES_DETAIL(r, "handler ran with code %d but the call reported success", O.h_code); return; }
         if (O.h_count == 1 && O.failed && O.code != O.h_code && c->fn != XF_GMTIME && c->fn != XF_LOCALTIME) {
-            RES_VIOL(r, "C05:%s:handler-code-differs:%s", fn, x_class(c)); RES_DETAIL(r, "handler got %d, the call returned %ld", O.h_code, O.code); return;
+            RES_VIOL(r, "C05:%s:handler-code-differs:handler-%d-returned-%ld", fn, O.h_code, O.code); RES_DETAIL(r, "handler got %d, the call returned %ld (%s)", O.h_code, O.code, x_class(c)); return;
         }
         return;
     case 6:
